@@ -111,7 +111,7 @@ def run(ctx):
     if not ok:
       tests = [norm_text(t) for (t, pol) in U.enclosing_tests(fn, st) if pol]
       for (fname, txt, needle, reason) in C11.PAIR_ALLOW:
-        if fname == fi.name and norm_text(st) == txt and any(needle in t for t in tests):
+        if fname == fi.name and (txt is None or norm_text(st) == txt) and any(needle in t for t in tests):
           ok, why = True, 'allow-listed: ' + reason
     ctx.ob('PAIR/end-total', fi, st, ok, why)
 
@@ -335,3 +335,5 @@ MUTANTS = [
     Mutant('threshold flipped', F, '    if value >= 64:\n      events.append((cc.time, _SUSTAIN_ON, cc))', '    if 64 <= value:\n      events.append((cc.time, _SUSTAIN_ON, cc))', expect='silent'),
     Mutant('up guard as negation', F, '    elif value < 64:\n      events.append((cc.time, _SUSTAIN_OFF, cc))', '    elif not value >= 64:\n      events.append((cc.time, _SUSTAIN_OFF, cc))', expect='silent'),
 ]
+
+RENAME_FUNCS = [(F, 'apply_sustain_control_changes')]
